@@ -5,8 +5,11 @@
 
 #include <etl/_cstddef/size_t.hpp>
 #include <etl/_tuple/forward_as_tuple.hpp>
+#include <etl/_tuple/tuple.hpp>
+#include <etl/_tuple/tuple_element.hpp>
 #include <etl/_tuple/tuple_like.hpp>
 #include <etl/_tuple/tuple_size.hpp>
+#include <etl/_type_traits/remove_cvref.hpp>
 #include <etl/_type_traits/remove_reference.hpp>
 #include <etl/_utility/forward.hpp>
 #include <etl/_utility/index_sequence.hpp>
@@ -14,6 +17,32 @@
 namespace etl {
 
 namespace detail {
+
+// tuple<E0, E1, ...> with the declared element types of a tuple-like T
+template <typename T, typename = etl::make_index_sequence<etl::tuple_size_v<etl::remove_cvref_t<T>>>>
+struct tuple_cat_elements;
+
+template <typename T, etl::size_t... I>
+struct tuple_cat_elements<T, etl::index_sequence<I...>> {
+    using type = etl::tuple<etl::tuple_element_t<I, etl::remove_cvref_t<T>>...>;
+};
+
+// The result type of tuple_cat: all element types of all arguments, in order, unchanged.
+template <typename... Ts>
+struct tuple_cat_result;
+
+template <>
+struct tuple_cat_result<> {
+    using type = etl::tuple<>;
+};
+
+template <typename... A>
+struct tuple_cat_result<etl::tuple<A...>> {
+    using type = etl::tuple<A...>;
+};
+
+template <typename... A, typename... B, typename... Rest>
+struct tuple_cat_result<etl::tuple<A...>, etl::tuple<B...>, Rest...> : tuple_cat_result<etl::tuple<A..., B...>, Rest...> { };
 
 inline constexpr struct tuple_cat {
     template <etl::tuple_like T1, etl::tuple_like T2, etl::size_t... I1, etl::size_t... I2>
@@ -24,21 +53,21 @@ inline constexpr struct tuple_cat {
         return etl::forward_as_tuple(get<I1>(etl::forward<T1>(t1))..., get<I2>(etl::forward<T2>(t2))...);
     }
 
-    template <etl::tuple_like Result>
-    [[nodiscard]] constexpr auto operator()(Result&& result) const
+    template <typename R, etl::tuple_like Result>
+    [[nodiscard]] constexpr auto run(Result&& result) const -> R
     {
-        return [&]<etl::size_t... Is>(etl::index_sequence<Is...> /*is*/) {
+        return [&]<etl::size_t... Is>(etl::index_sequence<Is...> /*is*/) -> R {
             using etl::get;
-            return etl::tuple{get<Is>(etl::forward<Result>(result))...};
+            return R(get<Is>(etl::forward<Result>(result))...);
         }(etl::make_index_sequence<etl::tuple_size_v<etl::remove_reference_t<Result>>>{});
     }
 
-    template <etl::tuple_like Result, etl::tuple_like Head, etl::tuple_like... Tail>
-    [[nodiscard]] constexpr auto operator()(Result&& result, Head&& head, Tail&&... tail) const
+    template <typename R, etl::tuple_like Result, etl::tuple_like Head, etl::tuple_like... Tail>
+    [[nodiscard]] constexpr auto run(Result&& result, Head&& head, Tail&&... tail) const -> R
     {
         constexpr auto idx1 = etl::make_index_sequence<etl::tuple_size_v<etl::remove_reference_t<Result>>>{};
         constexpr auto idx2 = etl::make_index_sequence<etl::tuple_size_v<etl::remove_reference_t<Head>>>{};
-        return (*this)(
+        return this->template run<R>(
             concat(etl::forward<Result>(result), etl::forward<Head>(head), idx1, idx2),
             etl::forward<Tail>(tail)...
         );
@@ -50,7 +79,12 @@ inline constexpr struct tuple_cat {
 template <etl::tuple_like... Tuples>
 [[nodiscard]] constexpr auto tuple_cat(Tuples&&... ts)
 {
-    return etl::detail::tuple_cat(etl::forward<Tuples>(ts)...);
+    using result_t = typename etl::detail::tuple_cat_result<typename etl::detail::tuple_cat_elements<Tuples>::type...>::type;
+    if constexpr (sizeof...(Tuples) == 0) {
+        return result_t{};
+    } else {
+        return etl::detail::tuple_cat.template run<result_t>(etl::forward<Tuples>(ts)...);
+    }
 }
 
 } // namespace etl
